@@ -1,3 +1,420 @@
-/- C14: property theorems (stub, not yet built) -/
+/-
+C14 — A NodeClaim launches one instance and its lifecycle moves forward.
+
+Property theorems only.  Model: `Karp/Model/Lifecycle.lean` (`Controller.Reconcile` of
+`pkg/controllers/nodeclaim/lifecycle`: finalizer patch, launch with the UID-keyed cache, registration,
+initialization, liveness, metadata patch, status patch; every API write / provider call an outcome
+parameter; a lagging informer cache).  Spec: `Karp/Spec/LifecycleOrder.lean`.  Helper lemmas and the
+invariant: `Karp/Proofs/Lifecycle{Lemmas,Inv,Steps,Refine}.lean`.
+
+Every theorem below is over ALL NodeClaim specs, ALL histories (any interleaving of environment events and
+reconciles, any length), ALL outcome vectors (`Faults`, `CreateOutcome`) and ALL cache lags (`lag`), for
+one controller process (the launch cache is never cleared except by the code itself).
+-/
+import Karp.Proofs.LifecycleRefine
+
+set_option linter.unusedSimpArgs false
+set_option linter.unusedVariables false
 namespace Karp.C14
+open Karp.Lifecycle Karp.Spec.LifecycleOrder
+
+/-! ## Fact expectations over the regenerated source facts -/
+
+/-- `Controller.Reconcile` runs launch, registration, initialization, liveness — in that order, over one object -/
+theorem fact_sub_reconcilers :
+    Karp.Gen.Lifecycle.subReconcilers = ["launch", "registration", "initialization", "liveness"] := by decide
+
+/-- in `Controller.Reconcile`: deletion path first; `AddFinalizer` and its `Patch` precede the sub-reconcilers; the
+    metadata `Patch` and the `Status().Patch` follow them; the read-your-writes sleep is last -/
+theorem fact_reconcile_call_order :
+    Karp.Gen.Lifecycle.reconcileCallOrder =
+      ["finalize", "AddFinalizer", "Patch", "Reconcile", "Patch", "Patch", "Status", "Sleep"] := by decide
+
+/-- in `Launch.Reconcile`: the cache is consulted before `launchNodeClaim` (the only caller of provider `Create`),
+    the cache is filled before `Launched` is set true -/
+theorem fact_launch_call_order :
+    Karp.Gen.Lifecycle.launchCallOrder =
+      ["cache.Delete", "cache.Get", "launchNodeClaim", "cache.SetDefault", "PopulateNodeClaimDetails", "SetTrue"] := by decide
+
+/-- in `launchNodeClaim`: one `Create`; each capacity-error class is followed by a `Delete`; `Launched` is never
+    set true there -/
+theorem fact_launchNodeClaim_call_order :
+    Karp.Gen.Lifecycle.launchNodeClaimCallOrder =
+      ["Create", "IsInsufficientCapacityError", "Delete", "IsNodeClassNotReadyError", "Delete",
+       "SetUnknownWithReason", "SetUnknownWithReason"] := by decide
+
+/-- in `Registration.Reconcile`: node lookup, sync, node `Patch`, only then `Registered = True` -/
+theorem fact_registration_call_order :
+    Karp.Gen.Lifecycle.registrationCallOrder =
+      ["NodeForNodeClaim", "SetFalse", "syncNode", "syncNode", "Patch", "SetTrue"] := by decide
+
+/-- in `Initialization.Reconcile`: Registered, node lookup, Ready, startup taints, ephemeral taints, resources
+    (and DRA pools), the label `Patch`, only then `Initialized = True` -/
+theorem fact_initialization_call_order :
+    Karp.Gen.Lifecycle.initializationCallOrder =
+      ["IsTrue", "NodeForNodeClaim", "GetCondition", "StartupTaintsRemoved", "KnownEphemeralTaintsRemoved",
+       "RequestedResourcesRegistered", "draDriverPoolsPublished", "Patch", "SetTrue"] := by decide
+
+/-- the model's unregistered taint is the documented one -/
+theorem fact_unregistered_taint : Karp.Lifecycle.unregistered = unregisteredTaint := unregistered_eq
+
+/-- the code's table of known ephemeral taints is the documented one (keys and effects) -/
+theorem fact_ephemeral_taints :
+    Karp.Gen.Lifecycle.knownEphemeralTaints = ephemeralTaints.map (fun e => (e.key, e.effect)) ∧
+    Karp.Gen.Lifecycle.knownEphemeralTaintKeyPrefixes = ephemeralPrefixes := ⟨ephemeral_table, ephemeral_prefixes⟩
+
+/-- hence the code's `IsKnownEphemeralTaint` is the specification's `isEphemeral`, for every taint -/
+theorem fact_ephemeral_predicate (t : Taint) : isKnownEphemeral t = isEphemeral t := isKnownEphemeral_eq t
+
+/-- the launch cache entry (refreshed by every reconcile that uses it) outlives the liveness deadlines after which
+    a NodeClaim that is not Launched / Registered is deleted: the TTL of the cache, which the model does not
+    represent, cannot expire on a NodeClaim that is still being reconciled -/
+theorem fact_cache_outlives_liveness :
+    Karp.Gen.Lifecycle.launchTimeoutSecs ≤ Karp.Gen.Lifecycle.registrationTimeoutSecs ∧
+    Karp.Gen.Lifecycle.registrationTimeoutSecs < Karp.Gen.Lifecycle.launchCacheTTLSecs := by decide
+
+theorem fact_names :
+    Karp.Gen.Lifecycle.terminationFinalizer = "karpenter.sh/termination" ∧
+    Karp.Gen.Lifecycle.nodeRegisteredLabelKey = "karpenter.sh/registered" ∧
+    Karp.Gen.Lifecycle.nodeInitializedLabelKey = "karpenter.sh/initialized" ∧
+    Karp.Gen.Lifecycle.condLaunched = "Launched" ∧ Karp.Gen.Lifecycle.condRegistered = "Registered" ∧
+    Karp.Gen.Lifecycle.condInitialized = "Initialized" ∧
+    Karp.Gen.Lifecycle.unregisteredTaintKey = unregisteredTaint.key := by decide
+
+/-! ## The invariant holds along every history -/
+
+theorem inv_history (sp : Spec) (fin : Bool) (steps : List Step) : Inv (run sp (World.init fin) steps) :=
+  inv_run sp steps (inv_init fin)
+
+/-! ## 1. At most one successful provider `Create` -/
+
+/-- **C14_create_once** — after any history (status writes failing anywhere, any cache lag, any provider
+    outcomes) the provider has created at most one instance for the NodeClaim. -/
+theorem C14_create_once (sp : Spec) (fin : Bool) (steps : List Step) :
+    (run sp (World.init fin) steps).instances ≤ 1 :=
+  (inv_history sp fin steps).once
+
+/-- the instance counter is exactly the number of successful `Create` calls in the call log, and one reconcile
+    asks the provider at most once (no invariant needed) -/
+theorem C14_create_calls (sp : Spec) (w : World) (s : Step) :
+    (creates (step sp w s).2.calls).length ≤ 1 ∧
+    (step sp w s).1.instances = w.instances + Karp.Lifecycle.okCreates (step sp w s).2.calls := by
+  cases s with
+  | env e => simp [step, creates, Karp.Lifecycle.okCreates, (applyEnv_facts w e).2.1]
+  | reconcile lag co f fin =>
+    simp only [step]
+    split; · simp [creates, Karp.Lifecycle.okCreates]
+    split; · simp [creates, Karp.Lifecycle.okCreates, finalizeStep]
+    exact reconcileLive_creates sp f co w _
+
+/-- successful `Create` calls over a whole history -/
+def totalOkCreates (sp : Spec) : World → List Step → Nat
+  | _, [] => 0
+  | w, s :: ss => Karp.Lifecycle.okCreates (step sp w s).2.calls + totalOkCreates sp (step sp w s).1 ss
+
+theorem instances_run (sp : Spec) (steps : List Step) : ∀ w : World,
+    (run sp w steps).instances = w.instances + totalOkCreates sp w steps := by
+  induction steps with
+  | nil => intro w; simp [run, totalOkCreates]
+  | cons s ss ih =>
+    intro w
+    simp only [run, totalOkCreates]
+    rw [ih, (C14_create_calls sp w s).2]; omega
+
+/-- **C14_create_once_calls** — the same, stated on the call log alone: over any history the controller receives
+    at most one successful answer from provider `Create`. -/
+theorem C14_create_once_calls (sp : Spec) (fin : Bool) (steps : List Step) :
+    totalOkCreates sp (World.init fin) steps ≤ 1 := by
+  have h := C14_create_once sp fin steps
+  rw [instances_run] at h
+  simp [World.init] at h
+  exact h
+
+/-! ## 2. Never before the finalizer -/
+
+/-- **C14_finalizer_first** — whenever a reconcile calls provider `Create` (whatever the answer), the API server's
+    copy of the NodeClaim carries the termination finalizer: the copy the reconcile was handed already had it, or
+    the reconcile's first call was the finalizer patch and it succeeded. -/
+theorem C14_finalizer_first (sp : Spec) (fin : Bool) (steps : List Step) (s : Step) :
+    let w := run sp (World.init fin) steps
+    ∀ c ∈ (step sp w s).2.calls, c.site = .create →
+      (step sp w s).1.claim.finalizer = true ∧ (step sp w s).1.finEver = true ∧
+      ((step sp w s).2.view.finalizer = true ∨ (step sp w s).2.calls.head? = some ⟨.finPatch, .ok⟩) := by
+  intro w c hc hsite
+  have h : Inv w := inv_history sp fin steps
+  cases s with
+  | env e => simp [step] at hc
+  | reconcile lag co f fo =>
+    simp only [step] at hc ⊢
+    split at hc; · simp at hc
+    split at hc; · simp at hc
+    rename_i h1 h2
+    simp only [h1, h2]
+    have hv : pickView w lag ∈ w.versions := (keptVersions_sublist w lag).subset (pickView_mem w lag)
+    exact reconcileLive_finalizer sp f co h (pickView w lag) hv c hc hsite
+
+/-! ## 3. Launched, Registered, Initialized: order and observable preconditions -/
+
+/-- **C14_order** — in every copy of the NodeClaim that exists on the API server or in a lagging cache, at any
+    point of any history: Initialized ⇒ Registered ⇒ Launched ⇒ the provider id is recorded and an instance was
+    created. -/
+theorem C14_order (sp : Spec) (fin : Bool) (steps : List Step) :
+    ∀ v ∈ (run sp (World.init fin) steps).versions,
+      (v.conds.i.status = .true_ → v.conds.r.status = .true_) ∧
+      (v.conds.r.status = .true_ → v.conds.l.status = .true_) ∧
+      (v.conds.l.status = .true_ → v.providerID = true ∧ 1 ≤ (run sp (World.init fin) steps).instances) := by
+  intro v hv
+  have h := inv_history sp fin steps
+  have hk := h.vok v hv
+  exact ⟨hk.ir, hk.rl, fun hl => ⟨hk.lp hl, h.linst v hv hl⟩⟩
+
+/-- in the specification's own words: the persisted status is `ordered` after every history -/
+theorem C14_order_spec (sp : Spec) (fin : Bool) (steps : List Step) :
+    let w := run sp (World.init fin) steps
+    ordered { prev := w.claim, created := w.instances, finEver := w.finEver } { claim := w.claim } = true := by
+  intro w
+  have h := C14_order sp fin steps w.claim (claim_mem_versions _)
+  unfold ordered Karp.Spec.LifecycleOrder.okCreates Karp.Spec.LifecycleOrder.isTrue
+  simp only [List.filter_nil, List.length_nil, Nat.add_zero]
+  cases hp : w.claim.present <;> simp
+  refine ⟨⟨?_, ?_⟩, ?_⟩
+  · cases hi : w.claim.conds.i.status <;> simp
+    exact h.1 hi
+  · cases hr : w.claim.conds.r.status <;> simp
+    exact h.2.1 hr
+  · cases hl : w.claim.conds.l.status <;> simp
+    exact h.2.2 hl
+
+/-- **C14_registered_pre** — along any history, whenever Registered becomes true on the API server it is a
+    reconcile that wrote it, and then exactly one Node carries the instance's provider id, it has the registered
+    label and no unregistered taint, and it is synced (termination finalizer, owner reference, the NodeClaim's and
+    the provider's labels, the NodeClaim's taints and startup taints unless `do-not-sync-taints`) — or the
+    reconcile was handed a stale copy that already said Registered (cache lag re-asserting an old status).
+    Hypothesis: the NodeClaim does not itself list the unregistered taint among its taints. -/
+theorem C14_registered_pre (sp : Spec) (fin : Bool) (steps : List Step) (s : Step)
+    (h1 : Karp.Lifecycle.unregistered ∉ sp.taints) (h2 : Karp.Lifecycle.unregistered ∉ sp.startup) :
+    let w := run sp (World.init fin) steps
+    (step sp w s).1.claim.conds.r.status = .true_ → w.claim.conds.r.status ≠ .true_ →
+      (step sp w s).2.isRec = true ∧
+      ((step sp w s).2.view.conds.r.status = .true_ ∨ registeredPre sp (step sp w s).1.nodes = true) :=
+  (step_flips sp (inv_history sp fin steps) s h1 h2).1
+
+/-- **C14_initialized_pre** — likewise for Initialized: exactly one Node, Ready, none of the NodeClaim's startup
+    taints, no known ephemeral taint, the requested extended resource reported. -/
+theorem C14_initialized_pre (sp : Spec) (fin : Bool) (steps : List Step) (s : Step)
+    (h1 : Karp.Lifecycle.unregistered ∉ sp.taints) (h2 : Karp.Lifecycle.unregistered ∉ sp.startup) :
+    let w := run sp (World.init fin) steps
+    (step sp w s).1.claim.conds.i.status = .true_ → w.claim.conds.i.status ≠ .true_ →
+      (step sp w s).2.isRec = true ∧
+      ((step sp w s).2.view.conds.i.status = .true_ ∨ initializedPre sp (step sp w s).1.nodes = true) :=
+  (step_flips sp (inv_history sp fin steps) s h1 h2).2
+
+/-- with an up-to-date copy the stale-copy alternative is impossible: the precondition holds outright -/
+theorem C14_registered_pre_fresh (sp : Spec) (fin : Bool) (steps : List Step) (s : Step)
+    (h1 : Karp.Lifecycle.unregistered ∉ sp.taints) (h2 : Karp.Lifecycle.unregistered ∉ sp.startup) :
+    let w := run sp (World.init fin) steps
+    (step sp w s).2.view = w.claim →
+    (step sp w s).1.claim.conds.r.status = .true_ → w.claim.conds.r.status ≠ .true_ →
+      registeredPre sp (step sp w s).1.nodes = true := by
+  intro w hfresh a b
+  rcases (C14_registered_pre sp fin steps s h1 h2 a b).2 with h | h
+  · rw [hfresh] at h; exact absurd h b
+  · exact h
+
+theorem C14_initialized_pre_fresh (sp : Spec) (fin : Bool) (steps : List Step) (s : Step)
+    (h1 : Karp.Lifecycle.unregistered ∉ sp.taints) (h2 : Karp.Lifecycle.unregistered ∉ sp.startup) :
+    let w := run sp (World.init fin) steps
+    (step sp w s).2.view = w.claim →
+    (step sp w s).1.claim.conds.i.status = .true_ → w.claim.conds.i.status ≠ .true_ →
+      initializedPre sp (step sp w s).1.nodes = true := by
+  intro w hfresh a b
+  rcases (C14_initialized_pre sp fin steps s h1 h2 a b).2 with h | h
+  · rw [hfresh] at h; exact absurd h b
+  · exact h
+
+/-! ## The lifecycle moves forward -/
+
+/-- **C14_forward** — along any history: a NodeClaim that is terminating or gone stays so, and a step that is
+    not a reconcile on a stale copy (an environment event, or a reconcile handed the API server's current copy)
+    never makes a true condition untrue. -/
+theorem C14_forward (sp : Spec) (fin : Bool) (steps : List Step) (s : Step) :
+    let w := run sp (World.init fin) steps
+    Later w.claim (step sp w s).1.claim ∧
+    (((step sp w s).2.isRec = false ∨ (step sp w s).2.view = w.claim) →
+      (w.claim.conds.l.status = .true_ → (step sp w s).1.claim.conds.l.status = .true_) ∧
+      (w.claim.conds.r.status = .true_ → (step sp w s).1.claim.conds.r.status = .true_) ∧
+      (w.claim.conds.i.status = .true_ → (step sp w s).1.claim.conds.i.status = .true_)) := by
+  intro w
+  have h : Inv w := inv_history sp fin steps
+  refine ⟨step_later sp w s, ?_⟩
+  cases s with
+  | env e =>
+    intro _
+    simp only [step]
+    rw [(applyEnv_facts w e).2.2.2.1]
+    exact ⟨id, id, id⟩
+  | reconcile lag co f fo =>
+    simp only [step]
+    split
+    · intro _; exact ⟨id, id, id⟩
+    split
+    · have : (finalizeStep w fo).claim.conds = w.claim.conds := by unfold finalizeStep; simp only []; split <;> rfl
+      intro _
+      simp only []
+      rw [this]
+      exact ⟨id, id, id⟩
+    · simp only []
+      intro hfresh
+      have hfresh : pickView w lag = w.claim := by
+        rcases hfresh with h' | h'
+        · simp at h'
+        · exact h'
+      rw [hfresh]
+      exact reconcileLive_forward sp f co h
+
+/-- `Launched` is never undone, lag or not: an older copy that says Launched implies every newer one does -/
+theorem C14_launched_monotone (sp : Spec) (fin : Bool) (steps : List Step) :
+    LSorted (run sp (World.init fin) steps).versions :=
+  (inv_history sp fin steps).sorted
+
+/-! ## 4. Capacity errors delete the NodeClaim -/
+
+/-- **C14_capacity_error** — along any history, when a reconcile reaches provider `Create` and the answer is
+    `InsufficientCapacity` or `NodeClassNotReady`: the very next call is a `Delete` of the NodeClaim; no instance
+    is counted; `Launched` does not become true; if the delete succeeds the NodeClaim is terminating or gone
+    afterwards; if it fails (other than NotFound) the reconcile returns an error — so that it runs again — unless an
+    API write of the same reconcile answered NotFound (the object no longer exists). -/
+theorem C14_capacity_error (sp : Spec) (fin : Bool) (steps : List Step)
+    (lag : Nat) (co : CreateOutcome) (f : Faults) (fo : FinalizeOut) (hco : co = .ice ∨ co = .ncnr) :
+    let w := run sp (World.init fin) steps
+    let p := step sp w (.reconcile lag co f fo)
+    (⟨.create, co.toOutcome⟩ : Call) ∈ p.2.calls →
+      capacityCalls p.2.calls = true ∧
+      p.1.instances = w.instances ∧
+      (p.1.claim.conds.l.status = .true_ → w.claim.conds.l.status = .true_) ∧
+      ∃ d, (⟨.claimDelete, d⟩ : Call) ∈ p.2.calls ∧
+        (d = .ok → p.1.claim.gone) ∧
+        (d ≠ .ok → d ≠ .notFound → p.2.result = .err ∨ ∃ x ∈ p.2.calls, x.out = .notFound) := by
+  intro w p
+  show (⟨.create, co.toOutcome⟩ : Call) ∈ (step sp w (.reconcile lag co f fo)).2.calls →
+    capacityCalls (step sp w (.reconcile lag co f fo)).2.calls = true ∧
+    (step sp w (.reconcile lag co f fo)).1.instances = w.instances ∧
+    ((step sp w (.reconcile lag co f fo)).1.claim.conds.l.status = .true_ → w.claim.conds.l.status = .true_) ∧
+    ∃ d, (⟨.claimDelete, d⟩ : Call) ∈ (step sp w (.reconcile lag co f fo)).2.calls ∧
+      (d = .ok → (step sp w (.reconcile lag co f fo)).1.claim.gone) ∧
+      (d ≠ .ok → d ≠ .notFound → (step sp w (.reconcile lag co f fo)).2.result = .err ∨
+        ∃ x ∈ (step sp w (.reconcile lag co f fo)).2.calls, x.out = .notFound)
+  simp only [step]
+  split; · intro hreach; simp at hreach
+  split; · intro hreach; simp at hreach
+  simp only []
+  intro hreach
+  exact reconcileLive_capacity sp f co hco w (pickView w lag) hreach
+
+/-- **C14_terminating_never_launched** — a reconcile that is handed a terminating (or already removed) copy makes
+    no provider call at all and creates nothing: once the delete after a capacity error (or any other delete) is
+    visible to the controller, it never launches that NodeClaim.  (The deletion path `finalize` is C09's subject;
+    that it contains no `Create` is checked against the real code on every deletion-path reconcile of the sweep.) -/
+theorem C14_terminating_never_launched (sp : Spec) (w : World) (lag : Nat) (co : CreateOutcome) (f : Faults)
+    (fo : FinalizeOut) (hv : (pickView w lag).deleting = true ∨ (pickView w lag).present = false) :
+    (step sp w (.reconcile lag co f fo)).2.calls = [] ∧
+    (step sp w (.reconcile lag co f fo)).1.instances = w.instances ∧
+    (step sp w (.reconcile lag co f fo)).1.claim.conds = w.claim.conds := by
+  simp only [step]
+  split; · simp
+  split
+  · simp [finalizeStep]; split <;> rfl
+  · rename_i h1 h2
+    rcases hv with hv | hv
+    · exact absurd hv h2
+    · simp [hv] at h1
+
+/-! ## 5. The model meets the executable specification -/
+
+/-- **C14_model_meets_spec** — the specification `historyOK` of `Karp/Spec/LifecycleOrder.lean` — the same Boolean
+    function the harness evaluates on what the REAL controller did (create-once, finalizer-first, order, observable
+    preconditions, forward, capacity errors delete, no launch when terminating) — holds of what the harness would
+    record of the model, for every NodeClaim spec (not listing the unregistered taint itself), every history, every
+    outcome vector and every cache lag. -/
+theorem C14_model_meets_spec (sp : Spec) (fin : Bool) (steps : List Step)
+    (h1 : Karp.Lifecycle.unregistered ∉ sp.taints) (h2 : Karp.Lifecycle.unregistered ∉ sp.startup) :
+    historyOK sp { prev := (World.init fin).claim, finEver := fin } (modelHistory sp (World.init fin) steps) = true :=
+  historyOK_model sp h1 h2 steps (inv_init fin)
+
+/-! ## Non-vacuity: concrete histories that exercise the hypotheses and every clause -/
+
+section examples
+
+/-- a NodeClaim with one startup taint, one taint, an extended resource request -/
+def spec1 : Spec := { startup := [⟨"example.com/startup", "NoSchedule"⟩], taints := [⟨"example.com/dedicated", "NoSchedule"⟩], wantsRes := true }
+
+def node1 : Node := { taints := [unregistered, ⟨"node.kubernetes.io/not-ready", "NoSchedule"⟩] }
+
+def recon (lag : Nat := 0) (co : CreateOutcome := .ok) (f : Faults := {}) : Step := .reconcile lag co f {}
+
+/-- launch with a failing status patch, retry on a lagging copy (cache hit), the node appears, becomes ready
+    piece by piece -/
+def happy : List Step := [
+  recon 0 .ok { statusPatch := some .other },   -- instance created, status write fails
+  recon 3,                                      -- retry on a lagging copy: the cache bridges
+  .env (.nodeAppear node1), recon,
+  .env (.setReady true), recon,
+  .env (.rmTaint ⟨"node.kubernetes.io/not-ready", "NoSchedule"⟩), recon,
+  .env (.rmTaint ⟨"example.com/startup", "NoSchedule"⟩), recon,
+  .env (.setRes true), recon]
+
+example : (run spec1 (World.init false) happy).instances = 1 := by decide
+example : totalOkCreates spec1 (World.init false) happy = 1 := by decide
+example : (run spec1 (World.init false) happy).claim.conds.i.status = .true_ := by decide
+example : (run spec1 (World.init false) happy).cache = false := by decide
+example : initializedPre spec1 (run spec1 (World.init false) happy).nodes = true := by decide
+/-- Registered becomes true in the fourth step, under its precondition (which later stops holding: the startup
+    taint is removed on purpose) -/
+example : (run spec1 (World.init false) (happy.take 3)).claim.conds.r.status = .unknown ∧
+    (run spec1 (World.init false) (happy.take 4)).claim.conds.r.status = .true_ ∧
+    registeredPre spec1 (run spec1 (World.init false) (happy.take 4)).nodes = true ∧
+    registeredPre spec1 (run spec1 (World.init false) happy).nodes = false := by decide
+example : Karp.Lifecycle.unregistered ∉ spec1.taints ∧ Karp.Lifecycle.unregistered ∉ spec1.startup := by decide
+
+/-- the recorded history of the model is not empty talk: the judge sees the Create, the delete, the flips -/
+example : (modelHistory spec1 (World.init false) happy).length = 12 ∧
+    ((modelHistory spec1 (World.init false) happy).map (fun o => o.creates.length)).sum = 1 ∧
+    historyOK spec1 { prev := (World.init false).claim, finEver := false } (modelHistory spec1 (World.init false) happy) = true := by
+  decide
+
+/-- ... and the judge does reject: the same history with a second instance forged into the record -/
+example : historyOK spec1 { prev := (World.init false).claim, finEver := false }
+    ((modelHistory spec1 (World.init false) happy).map (fun o => { o with creates := [⟨true, true, true⟩] })) = false := by
+  decide
+
+/-- the first reconcile calls Create right after its own successful finalizer patch -/
+example : (step spec1 (World.init false) (recon)).2.calls.head? = some ⟨.finPatch, .ok⟩ ∧
+    (⟨.create, .ok⟩ : Call) ∈ (step spec1 (World.init false) (recon)).2.calls := by decide
+
+/-- a capacity error: Create, Delete, terminating, and the next reconcile makes no call -/
+example : (step spec1 (World.init false) (recon 0 .ice)).2.calls =
+    [⟨.finPatch, .ok⟩, ⟨.create, .ice⟩, ⟨.claimDelete, .ok⟩, ⟨.metaPatch, .ok⟩, ⟨.statusPatch, .ok⟩] ∧
+    (step spec1 (World.init false) (recon 0 .ice)).1.claim.deleting = true ∧
+    (step spec1 (step spec1 (World.init false) (recon 0 .ice)).1 recon).2.calls = [] := by decide
+
+/-- the failed finalizer patch stops the reconcile before Create -/
+example : (step spec1 (World.init false) (recon 0 .ok { finPatch := some .conflict })).2.calls = [⟨.finPatch, .conflict⟩] ∧
+    (step spec1 (World.init false) (recon 0 .ok { finPatch := some .conflict })).2.result = .requeue := by decide
+
+/-- why `C14_forward` asks for an up-to-date copy: with a lagging cache the merge patch of a stale reconcile can
+    take Registered back from True to False (a second Node with the same provider id has appeared meanwhile; a
+    reconcile on the current copy would not even look).  `Launched` is immune
+    (`C14_launched_monotone`), and so is the instance count. -/
+def regress : List Step := [
+  recon, .env (.nodeAppear node1), recon,             -- Launched, Registered
+  .env (.nodeAppear node1),                           -- a second Node with the same provider id shows up
+  recon 3]                                            -- handed the copy from before registration: "MultipleNodesFound"
+
+example : (run spec1 (World.init false) (regress.take 3)).claim.conds.r.status = .true_ ∧
+    (run spec1 (World.init false) regress).claim.conds.r.status = .false_ ∧
+    (run spec1 (World.init false) regress).claim.conds.l.status = .true_ ∧
+    (run spec1 (World.init false) regress).instances = 1 := by decide
+
+end examples
+
 end Karp.C14
